@@ -5,7 +5,7 @@
     every operation starts with brings it back within capacity or evicts a whole batch
     (progress); a fresh insert heavier than the capacity is never retained.
     Concurrent cache: see the sync section (after the maintenance run that empties the queues). *)
-From MM Require Import Unsync.UInvDefs Unsync.UInv Unsync.UPolicyDefs Unsync.UPolicy.
+From MM Require Import Unsync.UInvDefs Unsync.UInv Unsync.UPolicyDefs Unsync.UPolicy Sync.SInvDefs Sync.SInvWrites Sync.SInvTop Conc.HK.
 
 Theorem C04_unsync_never_grows_beyond_capacity : forall c r o r' out cap,
   cfg_ok c -> WF' c (ur_state r) -> small (ur_state r) -> ustep c r o = Ok (r', out) -> uc_cap c = Some cap ->
@@ -35,6 +35,27 @@ Theorem C04_unsync_ws_is_resident_weight : forall c ops r outs, cfg_ok c -> N.of
   u_ec (ur_state r) = map_count (u_map (ur_state r)) /\ u_ws (ur_state r) = map_weight (u_map (ur_state r)).
 Proof. exact urun_counters. Qed.
 
+(** concurrent cache: after a maintenance run nothing is queued and weighted_size IS the
+    weigher's sum over what the map holds (so the capacity test of evict_lru_entries is about
+    the real resident weight) *)
+Theorem C04_sync_ws_is_resident_weight_after_maintenance : forall c s, SInv c s -> quiescent s ->
+  s_ec s = N.of_nat (size (s_map s)) /\ s_ec s = qlen (s_prob s) /\ s_ws s = s_map_weight c s /\
+  (forall k ve, s_map s !! k = Some ve -> si_admitted (get_info s (ve_info s ve)) = true) /\
+  (forall n nd, (n, nd) ∈ s_prob s -> map_has_info s (sa_key nd) (sa_info nd) = true).
+Proof. exact quiescent_counters. Qed.
+Theorem C04_sync_maintenance_quiesces : forall c s now, scfg_ok c -> SInv c s -> s_small s ->
+  exists s', s_sync c s now = Ok s' /\ SInv c s' /\ quiescent s'.
+Proof. exact sync_quiescent. Qed.
+(** between maintenance runs the cache overshoots by no more than its bounded write queue plus
+    one entry per inserting thread (abstract housekeeper model, all interleavings, unit weights) *)
+Theorem C04_conc_overshoot_bound : forall cap a0 progs st,
+  a0 <= cap -> NoDup (map fst progs) -> hk_reachable cap a0 progs st ->
+  h_resident st <= cap + WRITE_LOG_SIZE + N.of_nat (length progs).
+Proof. exact hk_overshoot. Qed.
+
+Print Assumptions C04_sync_ws_is_resident_weight_after_maintenance.
+Print Assumptions C04_sync_maintenance_quiesces.
+Print Assumptions C04_conc_overshoot_bound.
 Print Assumptions C04_unsync_never_grows_beyond_capacity.
 Print Assumptions C04_unsync_excess_is_removed.
 Print Assumptions C04_unsync_oversized_never_retained.
